@@ -325,8 +325,163 @@ pub fn run(part: &mut Part) {
                 cont_other: 0,
                 initial_open: false,
             }];
+            let dmg_profiles = vec![prof("cursor seeds x batch alphabet (damage)", { let mut s = vec![seed_ab()]; s.extend(cursor_seeds(&[0, 3], &[0, 7, 8, 34])); s }, profiles[0].alphabet.clone(), if TINY { if q { 1 } else { 2 } } else { 1 })];
             run_crash(part, profiles, cfgs);
-            part.rule = "histories of multi-record batches (1 frame .. several blocks .. across two WAL files) at cursor seeds block_end-k / file_end-k, followed by partial truncations; every crash point inside the last op; oracle independent of the model: each batch's recovered positions are none, all, or a suffix whose missing head is covered by an issued truncation, bytes identical".into();
+            let stats = explore(&dmg_profiles, part.seed, |env, leaf| crate::damage::c12_damage_leaf(env, leaf));
+            part.stats.merge(stats);
+            part.require_outcomes(&["batch-absent"]);
+            part.rule = "histories of multi-record batches (1 frame .. several blocks .. across two WAL files) at cursor seeds block_end-k / file_end-k, followed by partial truncations; every crash point inside the last op; oracle independent of the model: each batch's recovered positions are none, all, or a suffix whose missing head is covered by an issued truncation, bytes identical; damage half: every frame of every batch x every payload/CRC byte alteration, same oracle".into();
+        }
+        "C14" => {
+            let mut alpha = a_roll();
+            alpha.push(Op::Persist(false));
+            alpha.push(Op::Persist(true));
+            let mut seeds = vec![seed_ab(), seed_two_files(), seed_gc_ready(), seed_empty_old(), seed_future()];
+            seeds.extend(gc_spill_seeds().into_iter().take(3));
+            let profiles = if TINY {
+                vec![
+                    prof("empty x (A_roll+Persist)", vec![seed_empty()], alpha.clone(), if q { 3 } else { 4 }),
+                    prof("seeds x (A_roll+Persist)", seeds, alpha, if q { 2 } else { 3 }),
+                ]
+            } else {
+                let mut s = vec![seed_empty()];
+                s.extend(seeds);
+                vec![prof("empty+seeds x (A_roll+Persist)", s, alpha, if q { 1 } else { 2 })]
+            };
+            let descr: Vec<_> = profiles.iter().map(|p| p.describe()).collect();
+            let stats = explore(&profiles, part.seed, |env, leaf| c14_leaf(env, leaf));
+            part.stats.merge(stats);
+            part.bounds = json!({"profiles": descr, "configurations": C14_CONFIGS.iter().map(|c| c.name()).collect::<Vec<_>>()});
+            part.stats.sample(|| json!("every sequence of bounds.profiles was executed under each of the 7 configurations"));
+            part.rule = "every op sequence of the stated depth (explicit persist calls are letters) executed under 7 policy/clock configurations (virtual clock: OnDelay never expiring, always expired, expired at alternating ops); return values (positions, eviction counts, errors) and observable states must agree with the first configuration after every op and after drop + open".into();
+            part.require_outcomes(&["persisted", "appended", "truncated-n", "deleted"]);
+        }
+        "C18" => {
+            let mut seeds = vec![seed_ab(), seed_two_files(), seed_three_files(), seed_interleaved(), seed_gc_ready(), seed_empty_old()];
+            seeds.extend(gc_spill_seeds().into_iter().take(4));
+            let profiles = if TINY {
+                vec![
+                    prof("empty x A_roll", vec![seed_empty()], a_roll(), if q { 4 } else { 5 }),
+                    prof("shared-file seeds x A_roll", seeds, a_roll(), if q { 3 } else { 4 }),
+                ]
+            } else {
+                let mut s = vec![seed_empty()];
+                s.extend(seeds);
+                vec![prof("empty+shared-file seeds x A_roll", s, a_roll(), if q { 2 } else { 3 })]
+            };
+            let descr: Vec<_> = profiles.iter().map(|p| p.describe()).collect();
+            let stats = explore(&profiles, part.seed, |env, leaf| c18_leaf(env, leaf));
+            part.stats.merge(stats);
+            part.bounds = json!({"profiles": descr});
+            part.stats.sample(|| json!("every sequence of bounds.profiles, and for each of the queues a and b its projection, was executed"));
+            part.rule = "for every history H of the bound and q in {a,b}: H and H restricted to the calls addressed to q (restarts kept) are executed on the real code; q's return values and observable content must agree after every call of q, and after recovering a copy of the live directory taken at the end (op-boundary crash); no reference model is involved in the verdict".into();
+            part.require_outcomes(&["projections_compared"]);
+        }
+        "C11" => {
+            let seeds = vec![seed_ab(), seed_two_files(), seed_three_files(), seed_interleaved(), seed_gc_ready()];
+            let mut alpha = a_write();
+            alpha.push(Op::app(QA, Pos::Auto, Sz::XL));
+            let profiles = vec![prof("1-3 file seeds x (A_write + XL)", seeds, alpha, if q { 1 } else { 2 })];
+            let descr: Vec<_> = profiles.iter().map(|p| p.describe()).collect();
+            let stats = explore(&profiles, part.seed, |env, leaf| {
+                crate::fault::fault_leaf(env, leaf, false);
+                crate::fault::fault_leaf(env, leaf, true);
+            });
+            part.stats.merge(stats);
+            part.bounds = json!({"image_profiles": descr, "variants": ["clean image", "one byte of the second block damaged (block skipping on the path)"],
+                "faults": "every read_dir / open / read call made by recovery (counted in a fault-free run) x {fail once, fail forever} x {PermissionDenied, Other, NotFound, TimedOut}; tick budget = 10 x fault-free ticks + 1000"});
+            part.stats.sample(|| json!({"image":"seed two-files + App(a,L)","fault":{"call_kind":"open","nth":2,"mode":"forever","error":"PermissionDenied"},"expected":"Err(IoError) within the tick budget"}));
+            part.rule = "for the WAL image left by every history of the bound (1 to 3 files; clean and with a damaged block): every file-system call of kind read_dir/open/read made by recovery is failed, once or forever, with each error kind; open must return Err(IoError) before the tick budget: not Ok, not Corruption, no panic, no livelock. distinct_nontrivial = distinct (call kind, index, mode, error, image)".into();
+            part.assumptions.push("ErrorKind::Interrupted (retried by read_exact by contract) and UnexpectedEof on reads (defined as a short file) are not injected".into());
+            part.require_outcomes(&["Err(IoError)"]);
+        }
+        "C07" => {
+            crate::frame::run_frame(part);
+            // through-files half: SEQ profile with the cursor at every file_end - k
+            let ks: Vec<usize> = (0..=40).collect();
+            let seeds = cursor_seeds(&[3], &ks);
+            let alpha = vec![
+                Op::app(QA, Pos::Auto, Sz::L),
+                Op::app(QA, Pos::Auto, Sz::XL),
+                Op::app(QA, Pos::Auto, Sz::S3),
+                Op::app(QA, Pos::Auto, Sz::S0),
+                Op::Append { q: QA, pos: Pos::Auto, sizes: vec![Sz::S5, Sz::L, Sz::S1] },
+                Op::Reopen,
+            ];
+            let nseeds = seeds.len();
+            let profiles = vec![prof("cursor@file_end-k (k=0..40) x appends", seeds, alpha, if TINY { if q { 2 } else { 3 } } else if q { 1 } else { 2 })];
+            let mon = Monitors { property: "C07", conformance: true, reopen_state: true, final_reopen: true, ..Default::default() };
+            let frame_bounds = part.bounds.clone();
+            run_seq(part, profiles, vec![mon]);
+            let seq_bounds = part.bounds.clone();
+            part.bounds = json!({"frame_grid": frame_bounds, "through_files": seq_bounds, "through_files_seeds": nseeds});
+            part.rule = "(1) record layer over in-memory blocks: every (start offset in block) x (entry length) x (follower length) x (second follower) of the grid is written with the real RecordWriter and read back with the real RecordReader: entries identical, in order, then end of log; (2) through files: from seeds with the write cursor at every reachable file_end-k, k=0..40, every sequence of appends (small, empty, 1.5 blocks, > 1 file, batch) and restarts, read back through range(..) after reopen and compared with the model".into();
+        }
+        "C08" => {
+            let mut alpha = a_write();
+            alpha.push(Op::app(QA, Pos::Auto, Sz::Emb));
+            let mut seeds = vec![seed_empty(), seed_ab(), seed_two_files(), seed_recreated(), seed_gc_ready()];
+            seeds.extend(cursor_seeds(&[0, 1], &[0, 8]));
+            let profiles = vec![prof("seeds x (A_write + frame-shaped payload)", seeds, alpha, if TINY { if q { 1 } else { 2 } } else { 1 })];
+            let descr: Vec<_> = profiles.iter().map(|p| p.describe()).collect();
+            let stats = explore(&profiles, part.seed, |env, leaf| crate::damage::c08_leaf(env, leaf));
+            part.stats.merge(stats);
+            part.bounds = json!({"image_profiles": descr, "faults": if TINY { "every byte of every WAL file x {8 bit flips, 00, FF, 01..04}; every zero-fill range of length 2,4,7,8,16,64,256 at every start; every frame's length field set to every value 0..=64" } else { "per frame: header bytes, first/last 8 payload bytes, every 1021st payload byte, 16 bytes after the end of the log, +-8 around block boundaries x 14 values; zero ranges 7/64/32768 at those starts; length field set to 14 boundary values" }});
+            part.stats.sample(|| json!({"image":"seed cursor@block0end-0 + App(a, frame-shaped payload)","fault":{"kind":"length-field","new_len":24},"oracle":"every record returned after open was appended"}));
+            part.rule = "for the WAL image left by every history of the bound: every single in-place fault of the menu is applied, the directory opened with the real code; if open succeeds every (queue, position, payload) returned must be one that was appended, positions strictly increasing. One payload of the alphabet is the byte image of a valid frame (the length field is not covered by the CRC)".into();
+            part.require_outcomes(&["open-ok"]);
+        }
+        "C09" => {
+            let seeds = vec![seed_empty(), seed_ab(), seed_two_files(), seed_recreated(), seed_gc_ready(), seed_empty_old(), seed_future(), seed_interleaved()];
+            let mut alpha = a_write();
+            alpha.push(Op::Trunc { q: QA, at: Tr::Beyond });
+            let profiles = vec![prof("seeds x A_write", seeds, alpha, if TINY { if q { 2 } else { 3 } } else if q { 1 } else { 2 })];
+            let descr: Vec<_> = profiles.iter().map(|p| p.describe()).collect();
+            let stats = explore(&profiles, part.seed, |env, leaf| crate::damage::c09_leaf(env, leaf));
+            part.stats.merge(stats);
+            part.bounds = json!({"image_profiles": descr, "faults": "for every frame of the image (frame table from the harness's own frame events): every payload byte and every CRC byte altered by +1, xor 0xFF, zeroed; whole payload zeroed / set to 0xFF (real geometry: first/last 16 and every 1021st payload byte)"});
+            part.stats.sample(|| json!({"image":"seed recreated:a + Delete(a)","fault":{"kind":"frame-byte","part":"payload","alteration":"xor-ff"},"oracle":"open Ok; every retained record not appended by the damaged entry recovered intact, in order; extras must be genuine"}));
+            part.rule = "for the WAL image left by every history of the bound (incl. queue deletion / re-creation and GC-written position entries): every frame x every payload/CRC byte alteration; open must succeed and every record the model retains, except those appended by the call that wrote the damaged frame, must be returned with identical position and bytes, in order; anything additional must have been appended".into();
+            part.require_outcomes(&["recovered-everything", "recovered-with-loss-or-extras"]);
+        }
+        "C10" => {
+            let seeds = vec![seed_ab(), seed_two_files(), seed_three_files(), seed_recreated()];
+            let alpha = vec![Op::app(QA, Pos::Auto, Sz::L), Op::app(QB, Pos::Auto, Sz::S3), Op::Trunc { q: QA, at: Tr::Last }, Op::Delete(QB)];
+            let k = if q { 1 } else { 2 };
+            let profiles = vec![prof("1-3 file seeds x 4 ops", seeds, alpha, 1)];
+            let descr: Vec<_> = profiles.iter().map(|p| p.describe()).collect();
+            let kk = if TINY { k + if q { 1 } else { 0 } } else { 1 };
+            let stats = explore(&profiles, part.seed, |env, leaf| crate::damage::c10_structural_leaf(env, leaf, kk));
+            part.stats.merge(stats);
+            crate::damage::c10_crafted(part);
+            part.bounds = json!({"image_profiles": descr, "structural_damage": format!("all sequences of 1..={} ops from the menu: zero / fill (FF, 01, pattern) a block, swap two blocks, copy a block over another, truncate a file to 0/1/B-1/B/B+1/F-1 bytes, remove a file, duplicate a file under the next number / under u64::MAX, swap two files, add stray files (foreign names, 23-char name, 20 digits overflowing u64, empty valid-named file)", kk),
+                "crafted": "CRC-valid Full frames whose entry fields range over type 0..5 x position {0,1,5,2^62,2^64-1} x queue {empty, a, non-UTF-8} x queue_len {exact, +1, 65535} x record {position 0/5/2^64-1} x {len 0, exact, +1, 2^32-1, short header}; all sequences of <= 2 entries (thorough: <= 3 over a reduced set)",
+                "oracles": "catch_unwind (engine and crate built with overflow-checks), deterministic tick budget 100000 (H3+H5 ticks), peak allocation <= 8 x directory bytes + 1 MiB, then every read accessor of a returned log"});
+            part.stats.sample(|| json!({"image":"seed two-files + App(a,L)","damage_ops":["TruncFile(0,1)","DupFileMax(1)"]}));
+            part.rule = "every image of the bound x every sequence of structural damage ops up to the stated length, and every sequence of crafted CRC-valid entries: open under catch_unwind + tick budget + allocation bound; a returned log has every read accessor called".into();
+            part.assumptions.push("sub-directories inside the WAL directory are exercised by C17's real-file-system runs (the in-memory directory used here is flat)".into());
+            part.require_outcomes(&["open-ok", "open-err-corruption", "open-err-io"]);
+        }
+        "C17" => {
+            let mut seeds = vec![seed_ab(), seed_two_files(), seed_three_files(), seed_gc_ready(), seed_empty_old(), seed_interleaved()];
+            seeds.extend(gc_spill_seeds().into_iter().take(2));
+            let profiles = vec![
+                prof("roll/GC seeds x A_roll", seeds, a_roll(), if TINY { if q { 2 } else { 3 } } else if q { 1 } else { 2 }),
+                prof("empty x A_roll", vec![seed_empty()], a_roll(), if TINY { if q { 3 } else { 4 } } else { 2 }),
+            ];
+            let descr: Vec<_> = profiles.iter().map(|p| p.describe()).collect();
+            let stats = explore(&profiles, part.seed, |env, leaf| {
+                c17_leaf(env, leaf, 0);
+                if !leaf.seed.ops.is_empty() {
+                    c17_leaf(env, leaf, 1);
+                }
+            });
+            part.stats.merge(stats);
+            part.bounds = json!({"profiles": descr, "foreign_entries": ["23-char wal name", "25-char wal name", "19 digits + letter", "24 bytes with an Arabic-Indic digit", "upper-case prefix", "sub-directory with a valid WAL name (900) holding a file", "symlink with a valid WAL name (901) to a file with valid WAL content", "dotfile", "large unrelated file", "'+' sign", "'.tmp' suffix", "xwal- prefix with 24 chars", "embedded space", "'-' sign"],
+                "foreign_content": "every foreign file holds a valid WAL that creates queue \"evil\" with one record", "variants": ["foreign entries present from the start", "WAL files renumbered with gaps after the seed (k -> k + 3*rank + 2), log reopened"], "file_system": "real (tmpfs), not the in-memory directory"});
+            part.stats.sample(|| json!({"seed":"gc-ready","ops":["Trunc(0,Last)","App(1,Auto,[XL])"],"variant":"foreign-entries"}));
+            part.rule = "real directory pre-populated with 14 foreign entries x every history of the bound (roll-over and GC on the path): after every explored prefix each foreign entry is byte-identical (type, content, link target, children), every name created/removed/opened/read/written/resized in the I/O trace is wal-<20 digits> and not foreign, and queue \"evil\" never appears; second variant: the seed's WAL files are renumbered with gaps and the log must reopen to the model state and keep conforming".into();
+            part.require_outcomes(&["calls_deleting_wal_files", "calls_creating_wal_files", "gap_renumberings"]);
         }
         other => {
             part.machinery_errors
